@@ -23,6 +23,11 @@ def _rand(args):
     return rules.check_rule_cases(rules.gen_random_cases(rng, n, strict, mode), use_oracle=True, lines=lines)
 
 
+def _queries(args):
+    seed, n = args
+    return rules.check_query_cases(random.Random(seed), n)
+
+
 def run(ctx: Ctx, lines=LINES):
     jobs_small = []
     for t in range(len(rules.SMALL_TREES)):
@@ -45,6 +50,12 @@ def run(ctx: Ctx, lines=LINES):
         rr = pool.map(_rand, jobs_rand, chunksize=1)
     for r in rs + rr:
         rules.merge_into(ctx, r)
+    # the three public graph queries themselves: real code vs comprehension model vs worklist model
+    n_q = 600 if ctx.quick else 20000
+    with Pool(NCPU) as pool:
+        rq = pool.map(_queries, [(ctx.rng.randrange(1 << 30), n_q // 20) for _ in range(20)], chunksize=1)
+    for r in rq:
+        rules.merge_into(ctx, r)
     ctx.exhaustive = not ctx.quick
     ctx.stat("small_graphs", sum(len(j[1]) for j in jobs_small))
     ctx.stat("random_graphs", n_rand)
@@ -53,6 +64,8 @@ def run(ctx: Ctx, lines=LINES):
                 " import relations from the three leaves x every strict (pairwise unrelated) subject/object split (both filter kinds) x 12 shapes + 2 aliases; "
                 "random trees <=13 nodes (collision-free and adversarial component names; 1/3 with related filters) through the graph constructor, "
                 "and real scanned file trees; each rule evaluated by the real Rule API and by the extracted model; strict rules also against the documented-semantics oracle. "
+                "additionally the three public graph queries (get_dependencies and the two 'other' queries) on random graphs (some level-limited) x random filter lists (related or not, unknown names now and then): "
+                "real result maps vs the comprehension model (fn 11-13) vs the worklist model (fn 31-33), as sets of imports per key. "
                 "non-trivial = a graph on which the 14 shapes do not all give the same verdict")
 
 
